@@ -1,11 +1,12 @@
 from collections import defaultdict
 from collections.abc import Callable
 from dataclasses import dataclass, field
+from math import lcm
 from typing import cast
 
 from minimalloc import Buffer, Problem  # pyright: ignore[reportMissingTypeStubs]
 from xdsl.context import Context
-from xdsl.dialects import arith, builtin, func, llvm
+from xdsl.dialects import arith, builtin, func, llvm, memref
 from xdsl.dialects.memref import DeallocOp
 from xdsl.ir import Operation, OpResult, Sequence, SSAValue
 from xdsl.parser import IndexType, IntegerAttr, StringAttr
@@ -23,6 +24,17 @@ from xdsl.utils.hints import isa
 from snaxc.accelerators.acc_context import AccContext
 from snaxc.dialects import snax
 from snaxc.util.snax_memory import L1, SnaxMemory
+
+
+# operations whose results are views of (alias) their memref / descriptor operand
+VIEW_LIKE_OPS = (
+    builtin.UnrealizedConversionCastOp,
+    memref.SubviewOp,
+    memref.CastOp,
+    memref.ReinterpretCastOp,
+    memref.MemorySpaceCastOp,
+    snax.LayoutCast,
+)
 
 
 def create_memref_struct(
@@ -262,14 +274,16 @@ class MiniMallocate(RewritePattern):
                 buffers.append(buffer)
                 buffer_ops[buffer.id] = op
 
-                # add uses to the use list
-                for use in op.results[0].uses:
-                    use_op = get_top_level_op(use.operation)
-                    uses[use_op].append(buffer)
-                    if isinstance(use.operation, builtin.UnrealizedConversionCastOp):
-                        for cast_use in use.operation.results[0].uses:
-                            cast_use_op = get_top_level_op(cast_use.operation)
-                            uses[cast_use_op].append(buffer)
+                # add uses to the use list: the buffer stays alive as long as the allocation itself,
+                # or any cast or view of it, is used
+                values: list[SSAValue] = [op.results[0]]
+                while values:
+                    value = values.pop()
+                    for use in value.uses:
+                        use_op = get_top_level_op(use.operation)
+                        uses[use_op].append(buffer)
+                        if isinstance(use.operation, VIEW_LIKE_OPS):
+                            values.extend(use.operation.results)
 
             if op in uses:
                 # udpate lifetime of buffer
@@ -295,10 +309,13 @@ class MiniMallocate(RewritePattern):
         )
         for memory in memory_spaces:
             buffers_subset = [buffer for buffer in buffers if buffer_ops[buffer.id].memory_space == memory.attribute]
-            problem = Problem(buffers_subset, memory.capacity)
+            # the solver aligns offsets, not addresses: start from an address that is a multiple of every alignment
+            alignment = lcm(*(buffer.alignment for buffer in buffers_subset if buffer.alignment > 0))
+            base = -(-memory.start // alignment) * alignment
+            problem = Problem(buffers_subset, memory.capacity - (base - memory.start))
             solution = problem.solve()
             for buffer, offset in zip(buffers_subset, solution):
-                pointer_result[buffer.id] = offset + memory.start
+                pointer_result[buffer.id] = offset + base
 
         # Now, generate constant ops for the pointers
         for buffer in buffers:
